@@ -8,5 +8,7 @@ CONSTANTS Cap = 2
  MixAnyTime = FALSE
  UncheckedLengths = FALSE
  SilencePanics = FALSE
+ MaxFails = 1
+ FailedStartStuck = FALSE
 INVARIANTS Emit
 CHECK_DEADLOCK FALSE
